@@ -52,7 +52,7 @@ def c07_split(inp, obligation):
         owners = [o] + list(kids)
         for i_ in range(len(owners)):
             for j_ in range(i_ + 1, len(owners)):
-                for attr in ("start", "end", "levelvec_dict"):
-                    if getattr(owners[i_], attr) is getattr(owners[j_], attr):
-                        bad.append("%s: two areas share one %s object (a later change of one silently changes the other)" % (name, attr))
+                # the collision table is written in place by add_level(); the coordinate lists are never changed in place (sharing them is harmless)
+                if owners[i_].levelvec_dict is owners[j_].levelvec_dict:
+                    bad.append("%s: two areas share one levelvec_dict object (add_level of one silently fills the other's collision table)" % name)
     return bool(bad), {"start": start, "end": end, "violations": bad[:6]}
